@@ -52,6 +52,13 @@ def c14_lines(rnd, n):
 def check(prop, tier, seed, replay=None):
     rep = C.Report(prop, tier, seed); audit = C.proof_audit(prop); thorough = tier == 'thorough'
     configs = THOROUGH if thorough else QUICK
+    # the debug-check sites of the source vs the modelled set (theorem C15_debug_checks_silent)
+    from . import sites as SITES
+    got, new, gone = SITES.compare(C.os.path.join(C.REPO, 'include'), C.os.path.join(C.LEAN, 'debug_sites.json'))
+    rep.notes['debug_check_sites'] = len(got)
+    if new or gone:
+        rep.broke(dict(correspondence='debug-check sites extracted from the source vs the modelled set (Props/C15b.lean, lean/debug_sites.json): theorem C15_debug_checks_silent no longer covers the code as it is',
+                       new_or_changed=[list(x) for x in new][:8], gone=[list(x) for x in gone][:8]))
     rep.cov['rule'] = ('the map, sub and view op families (reduced instantiation matrix in the quick tier) with the generators of C01-C14 restricted to admissible lines, run in every configuration: '
                        '{g++, clang++} x {c++17, 20, 23} x {attribute, emulation} x {O0, O2} x {NDEBUG, assertions, assertions + _MDSPAN_DEBUG} x {bracket, paren}; plus a C++14-only server (mappings, mdspan observers / operator() access: '
                        'fold and concept emulations) in g++/clang++ x O0/O2 x attribute/emulation; every transcript is compared with the single model transcript; non-trivial = admissible op line of rank >= 1')
